@@ -155,6 +155,8 @@ class Engine:
                 v = fv.arr_value(st, v)
             nd = ty[2]
             shape = [z3.IntVal(0)] * nd
+            if ty[1] == "fdict":
+                return SArrVal("fdict", shape, dict(v.comps))
             if ty[1] == "xfloat":
                 return SArrVal("f8", shape, {"v": v.comps["v"], "nan": v.comps["nan"], "ninf": v.comps["ninf"]})
             if ty[1] in ("float", "f8", "f4"):
@@ -351,7 +353,7 @@ class Engine:
         if parts is not None and len(parts) == 1 and parts[0] not in st.funcs and not prog:
             import re as _re
 
-            if _re.fullmatch(r"(perm|shuffle|where_rank)\d+(_inv)?", parts[0]):
+            if _re.fullmatch(r"(perm|shuffle|where_rank|sort)\d+(_inv)?", parts[0]):
                 # ghost function of an external that was not called on this path: unconstrained symbol
                 fv.counter += 1
                 st.funcs = dict(st.funcs)
@@ -507,10 +509,14 @@ class Engine:
         ordn = fv.call_counts.get(short, 0)
         # anchors are static per call *site*: use ordinal of the site in source order
         site = fv.call_site_ordinal(node, short)
-        for s_ in fv.run_ghost(cd_anchor(fv, short, site, "before"), st):
-            pass
         pnames, bound = self.bind_args(fv, st, cd, node, prog)
         fv.flush_ovf(st, node)
+        # the actual arguments are visible to ghost code as <callee>_arg_<parameter> (e.g. an unnamed
+        # temporary passed to the callee); the `before` anchor runs after argument evaluation
+        for pn in pnames:
+            st.env["%s_arg_%s" % (short, pn)] = bound[pn]
+        for s_ in fv.run_ghost(cd_anchor(fv, short, site, "before"), st):
+            pass
         # callee view
         cs = State()
         cs.env = dict(bound)
@@ -615,6 +621,7 @@ class Engine:
         if isinstance(res, SInt) and cd.options.get("machine_ints"):
             st.assume(z3.And(res.e >= INT64_MIN, res.e <= INT64_MAX))
         cs.env["result"] = res
+        st.env["%s_result" % short] = res  # ghost name of the (possibly unnamed) call result
         cs.heap = st.heap
         saved_mode = fv.exists_mode
         fv.exists_mode = "skolem" if not st.guards else "quant"
